@@ -7,4 +7,5 @@ mkdir -p bin work evidence replays
 cp /repo/go.sum go.sum
 go build -o bin/check ./cmd/check || { echo "setup: harness build failed" >&2; exit 1; }
 if [ -x scripts/build-overlay.sh ]; then scripts/build-overlay.sh || exit 1; fi
+go test -race -c -o bin/racepass.test ./internal/racepass || { echo "setup: race pass build failed" >&2; exit 1; }
 echo "setup ok"
